@@ -57,11 +57,17 @@ RULE = ("DETERMINISTIC campaign (constant seed %d; VERIF_SEED is ignored because
         "verdict of c19.decide for each. "
         "non-trivial = at least 3 alternatives and at least 2 distinct orders" % CAMPAIGN_SEED)
 EXHAUSTIVE = {
-    "quick": "all 63 non-empty sets of strict orders over 3 alternatives (x sorted / reversed / shuffled storage); "
-             "all sets of <= 2 strict orders over 4 alternatives in both storage orders",
+    "quick": "all 63 non-empty sets of strict orders over 3 alternatives (x sorted / reversed / shuffled storage) and all "
+             "sets of 3..6 orders over 3 alternatives in ALL storage orders; all sets of <= 2 strict orders over 4 "
+             "alternatives in both storage orders; ALL 1771 sets of 4 distinct orders over 4 alternatives that contain "
+             "the identity (every 4-order profile up to relabelling) in ALL 24 storage orders; every sixth of the 8855 "
+             "sets of 5 orders containing the identity (one storage order)",
     "thorough": "all 63 non-empty sets of strict orders over 3 alternatives (x sorted / reversed / shuffled "
                 "storage); all sets of <= 2 strict orders over 4 alternatives in both storage orders; all sets "
-                "of 3 strict orders over 4 alternatives (given storage order)"}
+                "of 3 strict orders over 4 alternatives (given storage order); all sets of 3..6 orders over 3 "
+                "alternatives in ALL storage orders; ALL 1771 sets of 4 distinct orders over 4 alternatives containing "
+                "the identity in ALL 24 storage orders; ALL 8855 sets of 5 orders containing the identity (one "
+                "storage order)"}
 THEOREMS_FOR_OP = {
     "c19.planted": "eucl_check_correct, planted_sound (the planted profile is 1-Euclidean, so True with a map "
                    "accepted by eucl_check is the only correct answer)",
@@ -357,6 +363,27 @@ def generate(tier, seed):
     if not quick:
         for sub in itertools.combinations(P4, 3):
             out.append(mk_profile(alts4, list(sub), gen="exh-m4", storage=0))
+    # ---- EXHAUSTIVE: every set of 4 distinct orders over 4 alternatives that contains the identity (= every
+    #      4-order profile up to relabelling; 1771 sets) in ALL 24 storage orders; every set of 3..6 orders over 3
+    #      alternatives in all storage orders (one case = one set with all its storage orders)
+    ident4 = [1, 2, 3, 4]
+    others4 = [p for p in P4 if p != ident4]
+    perms4 = [list(p) for p in itertools.permutations(range(4))]
+    for sub in itertools.combinations(others4, 3):
+        out.append(case("c19.orders", [alts4, [ident4] + [list(s) for s in sub], perms4], m=4, n=4, gen="exh-4x4-all-storage"))
+    for k in range(3, 7):
+        permsk = [list(p) for p in itertools.permutations(range(k))]
+        for sub in itertools.combinations(P3, k):
+            out.append(case("c19.orders", [alts3, [list(s) for s in sub], permsk], m=3, n=k, gen="exh-m3-all-storage"))
+    # every set of 5 orders over 4 alternatives that contains the identity (8855 sets), one storage order each
+    # (quick: every sixth set)
+    rng = random.Random(CAMPAIGN_SEED + 13)
+    for i, sub in enumerate(itertools.combinations(others4, 4)):
+        prof = [ident4] + [list(s) for s in sub]
+        rng.shuffle(prof)
+        if quick and i % 6:
+            continue
+        out.append(mk_profile(alts4, prof, gen="exh-5x4", storage=0))
     # m = 4 : sampled sets of 3..6 orders
     rng = random.Random(CAMPAIGN_SEED + 5)
     for i in range(150 if quick else 1500):
@@ -657,6 +684,9 @@ def judge(c, r, mres):
                     % (verdicts, c["payload"][2], bool(expected),
                        "; the verdict depends on the storage order" if len(set(verdicts)) > 1 else "",
                        "; the profile is refuted by the necessary conditions" if M["refuted"] == 1 else "")}
+        for k, ri in enumerate(r):
+            if ri[1] == 1 and M.get("wit%d" % k) != 1:
+                return {"kind": K_WIT, "reason": "storage order %r: %s" % (c["payload"][2][k], _witness_reason(ri))}
         return None
     if isinstance(r, dict):
         return {"kind": K_EXC, "reason": "crash: %r" % (r,)}
